@@ -67,6 +67,21 @@ def _worker(job):
     return len(strings), out
 
 
+def edit_neighbourhood(bases: List[str]) -> set:
+    """Every text at edit distance one (deletion, insertion, substitution over the format alphabet) from longer valid
+    renderings: the boundary cases of the scanner on realistic lengths (nested / missing / extra delimiters anywhere)."""
+    out = set()
+    for b in bases:
+        for i in range(len(b) + 1):
+            for c in ALPHABET:
+                out.add(b[:i] + c + b[i:])
+            if i < len(b):
+                out.add(b[:i] + b[i + 1:])
+                for c in ALPHABET:
+                    out.add(b[:i] + c + b[i + 1:])
+    return out
+
+
 def all_strings(maxlen: int, alphabet: str = ALPHABET):
     for n in range(maxlen + 1):
         for t in itertools.product(alphabet, repeat=n):
@@ -93,6 +108,8 @@ def run(ctx) -> Result:
     strings = list(all_strings(maxlen))
     extra = [p + c for p in ("[{1}", "[[a]", "[{1},{2", "r:[{1}") for c in all_strings(2)]
     strings += extra
+    strings += sorted(edit_neighbourhood(["[{1}, {2, 3}, {4}]", "[[a], [b, c]]", "r1 : [{12}, {7, 30}, {5}]",
+                                          "[{x_1, Bob}, {y}, {z, t, u}]"]))
     chunks = [strings[i::16] for i in range(16)]
     n_eval = 0
     bads: List[Tuple[str, str, str]] = []
